@@ -25,6 +25,8 @@ __defined_functions = {}
 __definition_node_ids = set()
 # Stores the sorts for all declared or defined symbols
 __sort_lookup = {}
+# Stores the symbols of functions with parameters (not usable as variables)
+__function_symbols = set()
 # Stores indices that should not be replaced by constants
 __indices = set()
 # Caches calls to get_sort
@@ -44,6 +46,7 @@ def collect_information(exprs):  # noqa: C901
     global __defined_functions
     global __definition_node_ids
     global __sort_lookup
+    global __function_symbols
     global __indices
     global __datatypes_constants
     global __datatypes_constructors
@@ -78,6 +81,8 @@ def collect_information(exprs):  # noqa: C901
                 continue
             if cmd[2] == tuple():
                 __constants[cmd[1].data] = cmd[3]
+            else:
+                __function_symbols.add(cmd[1].data)
             __definition_node_ids.add(cmd[1].id)
             __sort_lookup[cmd[1].data] = cmd[3]
         if name == 'define-fun':
@@ -93,6 +98,8 @@ def collect_information(exprs):  # noqa: C901
                 continue
             if cmd[2] == tuple():
                 __constants[cmd[1]] = cmd[3]
+            else:
+                __function_symbols.add(cmd[1].data)
             __defined_functions[cmd[1]] = (len(
                 cmd[2]), lambda args, cmd=cmd: __instantiate(cmd, args))
             __definition_node_ids.add(cmd[1].id)
@@ -218,6 +225,7 @@ def reset_information():
     global __defined_functions
     global __definition_node_ids
     global __sort_lookup
+    global __function_symbols
     global __indices
     global __get_sort_cache
     global __datatypes_constants
@@ -227,6 +235,7 @@ def reset_information():
     __defined_functions = {}
     __definition_node_ids = set()
     __sort_lookup = {}
+    __function_symbols = set()
     __indices = set()
     __get_sort_cache = {}
     __datatypes_constants = {}
@@ -243,7 +252,10 @@ def get_variables_with_sort(var_sort):
     Requires that global information has been populated via
     ``collect_information``.
     """
-    return [v for v in __sort_lookup if __sort_lookup[v] == var_sort]
+    return [
+        v for v in __sort_lookup
+        if __sort_lookup[v] == var_sort and v not in __function_symbols
+    ]
 
 
 def introduce_variables(exprs, vars):
